@@ -693,6 +693,11 @@ func (p *Prog) errorCall(e ast.Expr) (class string, code int64, ok bool) {
 			return p.errorCall(c.Args[3])
 		}
 		return "", 0, false
+	case "(*serverConn).rejectBlockFrom":
+		if len(c.Args) == 5 {
+			return p.errorCall(c.Args[4])
+		}
+		return "", 0, false
 	case "NewGoAwayError":
 		class = "GoAway"
 	case "NewResetStreamError", "NewError":
